@@ -103,3 +103,48 @@ where
 fn short<T: Debug>(r: &T) -> String {
     format!("{r:?}").chars().take(120).collect()
 }
+
+/// Longer histories on ONE thread: every sequence of 1..=6 calls over a corpus of at most 5 inputs, each history on a
+/// thread of its own (so thread-local memory starts empty); every result equals the input's result on its own.
+/// (Pairs see a memo of one entry; a small cache with a replacement policy - move-to-front, least recently used -
+/// needs three or four distinct values and a revisit before it can go wrong.)
+pub fn history_site<I, O, F>(prop: &'static str, name: &str, what: &str, corpus: Vec<(String, I)>, f: F) -> Site
+where
+    I: Clone + Send + Sync + 'static,
+    O: PartialEq + Debug + Send + Sync + 'static,
+    F: Fn(&I) -> O + Send + Sync + Clone + 'static,
+{
+    let k = corpus.len() as u64;
+    let mut alone: Vec<Result<O, String>> = vec![];
+    for (_, x) in &corpus {
+        let (x, f) = (x.clone(), f.clone());
+        alone.push(std::thread::spawn(move || guard(|| f(&x))).join().unwrap_or_else(|_| Err("thread died".into())));
+    }
+    let alone = Arc::new(alone);
+    let corpus = Arc::new(corpus);
+    let mut starts = vec![];
+    let mut n = 0u64;
+    for l in 1..=6u32 { starts.push(n); n += k.pow(l); }
+    let sname = name.to_string();
+    Site::new(name, n,
+        &format!("{what}: every sequence of 1..=6 calls over a corpus of {k} inputs, each sequence on a fresh thread: every result equals the input's result on a thread of its own"),
+        move |i, acc| {
+            acc.eval();
+            let l = starts.iter().rposition(|s| *s <= i).unwrap();
+            let mut j = i - starts[l];
+            let mut hist: Vec<usize> = vec![];
+            for _ in 0..=l { hist.push((j % k) as usize); j /= k; }
+            let (c, f, h2) = (corpus.clone(), f.clone(), hist.clone());
+            let results: Vec<Result<O, String>> = std::thread::spawn(move || h2.iter().map(|ix| guard(|| f(&c[*ix].1))).collect()).join().unwrap_or_default();
+            for (step, (ix, r)) in hist.iter().zip(results.iter()).enumerate() {
+                if *r != alone[*ix] {
+                    let told: Vec<&str> = hist[..=step].iter().map(|x| corpus[*x].0.as_str()).collect();
+                    acc.violate(i, format!("{prop}|history|{sname}|result-depends-on-earlier-calls"), format!("after {told:?} the last call gave {} where the input on its own gives {}", short(r), short(&alone[*ix])), json!({"site": sname, "index": i, "history": told}));
+                    return;
+                }
+            }
+            if results.len() != hist.len() { acc.violate(i, format!("{prop}|history|{sname}|thread-died"), "the history's thread died".into(), json!({"site": sname, "index": i})); return; }
+            acc.class("history-independent");
+            acc.nontrivial();
+        })
+}
